@@ -10,7 +10,8 @@ PROPERTY = "C04"
 LEVEL = "exploration"
 TIMEOUT = 240
 BUDGET = {"quick": 150, "thorough": 1500}
-RULE = ("Seeded random programs with unconditional self-referential writes `m.write(f(m.read()))` (f: chain of 1-8 "
+RULE = ("[loop bodies include comparison-based forms: (m < 5) * 7, 12 - (m > lim) * 5, (m < 9) : m + 1, m == 0] "
+        "Seeded random programs with unconditional self-referential writes `m.write(f(m.read()))` (f: chain of 1-8 "
         "arithmetic steps over the cell, constants and held inputs: counters, modulo clocks, accumulators, "
         "LFSR-style mixes; reads at one or several chain points; identity readers and derived readers; one or two "
         "cells), compiled with optimisation on and off. The blueprint runs from the all-zero state for 12*Lmax "
